@@ -10,6 +10,7 @@ import (
 	"net/http"
 	"net/http/httptest"
 	"strconv"
+	"strings"
 	"sync"
 	"time"
 
@@ -700,12 +701,75 @@ func c13Pair(a, b, c c13ID, level, stream string) c13In {
 	return c13In{Level: level, Stream: stream, IDs: []c13ID{a, b, c}, Ops: ops}
 }
 
+// identities that a "helpful" normalisation at some boundary (case folding of the scheme
+// name or of the principal, trimming) would conflate. For the property every one of
+// them is a DIFFERENT identity: domains and principals are compared bytewise.
+var c13Norm = []c13ID{
+	c13id(true, "jwt", "alice"), c13id(true, "JWT", "alice"), c13id(true, "Jwt", "alice"),
+	c13id(true, "jwt", "Alice"), c13id(true, "jwt", "ALICE"),
+	c13id(true, "SSO", "alice"), c13id(true, "sso", "alice"),
+	c13id(true, "jwt ", "alice"), c13id(true, " jwt", "alice"),
+	c13id(true, "jwt", "alice "), c13id(true, "jwt", " alice"),
+}
+
+// the normalisation template: A (id 0) mints, B (id 1) presents on every route, then the
+// reverse direction, then A itself. Static token ids: 0 A.cursor 1 A.call 2 A.sticky
+// 3 B.cursor 4 B.call 5 B.sticky.
+func c13NormCase(a, b c13ID, level, stream string) c13In {
+	const A, B = 0, 1
+	return c13In{Level: level, Stream: stream, IDs: []c13ID{a, b}, Ops: []c13Op{
+		{Op: "init", Who: A}, {Op: "open", Who: A},
+		cont(B, rt(0), rt(1)), cont(B, rlast(), rnone()), // warm
+		{Op: "reset"},
+		cont(B, rt(0), rt(1)), cont(B, rt(0), rnone()), // cold, echoed call token
+		resume(B, rt(2)), teardown(B, rt(2)), resume(A, rt(2)),
+		{Op: "init", Who: B}, {Op: "open", Who: B},
+		cont(A, rt(3), rt(4)), resume(A, rt(5)), teardown(A, rt(5)), resume(B, rt(5)),
+		cont(A, rt(0), rt(1)), resume(A, rt(2)), teardown(A, rt(2)), resume(A, rt(2)),
+	}}
+}
+
+// c13Variant spells an identity differently (letter case, surrounding blanks).
+func c13Variant(r *rand.Rand, id c13ID) c13ID {
+	if id.Nil || !id.Auth {
+		return id
+	}
+	db, _ := hex.DecodeString(id.D)
+	pb, _ := hex.DecodeString(id.P)
+	d, p := string(db), string(pb)
+	f := []func(string) string{
+		strings.ToUpper, strings.ToLower,
+		func(x string) string { return x + " " }, func(x string) string { return " " + x },
+		func(x string) string {
+			if x == "" {
+				return x
+			}
+			return strings.ToUpper(x[:1]) + x[1:]
+		},
+	}[r.Intn(5)]
+	if r.Intn(2) == 0 {
+		d = f(d)
+	} else {
+		p = f(p)
+	}
+	return c13id(true, d, p)
+}
+
 func c13Random(r *rand.Rand, level, stream string) c13In {
 	n := 2 + r.Intn(3)
 	ids := make([]c13ID, n)
 	base := r.Intn(len(c13Pool) - 2)
 	for i := range ids {
-		switch r.Intn(4) {
+		switch r.Intn(5) {
+		case 4: // another spelling of an identity already in the case (or of the base)
+			src := c13Pool[base]
+			if i > 0 {
+				src = ids[r.Intn(i)]
+			}
+			if !src.Auth || src.Nil {
+				src = c13Pool[5]
+			}
+			ids[i] = c13Variant(r, src)
 		case 0: // near the base identity
 			ids[i] = c13Pool[(base+r.Intn(3))%(len(c13Pool)-2)]
 		case 1: // random bytes, NUL-free domain
@@ -778,6 +842,25 @@ func c13Gen(r *rand.Rand, n int, tier string) []c13In {
 			}})
 		}
 	}
+	// identities differing only by letter case or surrounding blanks (domain, principal):
+	// every ordered pair, end to end over HTTP (where an authenticator's result could be
+	// "canonicalised" before anything is bound to it); both levels in the thorough tier
+	for a := range c13Norm {
+		for b := range c13Norm {
+			if a == b {
+				continue
+			}
+			if tier == "thorough" {
+				for _, l := range levels {
+					for _, s := range streams {
+						out = append(out, c13NormCase(c13Norm[a], c13Norm[b], l, s))
+					}
+				}
+			} else {
+				out = append(out, c13NormCase(c13Norm[a], c13Norm[b], "http", streams[(a+b)%2]))
+			}
+		}
+	}
 	// every ordered pair of the pool (boundary identities come first in pool order)
 	for a := 0; a < np; a++ {
 		for b := 0; b < np; b++ {
@@ -801,6 +884,6 @@ func c13Gen(r *rand.Rand, n int, tier string) []c13In {
 }
 
 func init() {
-	Register("C13", "every ordered pair of an 18-identity pool (anonymous in three spellings, empty fields, the cache-key collision candidate, shared prefixes, NUL/high bytes in principals, two NUL-domain identities outside the quantifier) runs a 45-53 step history on a fresh real server (mint by A, present by B: own/foreign/other-kind tokens, verbatim and re-enveloped, cache warm/cold/warmed by a bystander; session tokens on the resume route AND on the DELETE /__session__ teardown route, observing status and whether the state's Close ran, then whether the owner still resumes), alternately through the verif hooks and through the HTTP routes; then random histories; every case is non-trivial (it contains presentations); distinct = distinct input JSON",
+	Register("C13", "every ordered pair of an 18-identity pool (anonymous in three spellings, empty fields, the cache-key collision candidate, shared prefixes, NUL/high bytes in principals, two NUL-domain identities outside the quantifier) runs a 45-53 step history on a fresh real server (mint by A, present by B: own/foreign/other-kind tokens, verbatim and re-enveloped, cache warm/cold/warmed by a bystander; session tokens on the resume route AND on the DELETE /__session__ teardown route, observing status and whether the state's Close ran, then whether the owner still resumes), alternately through the verif hooks and through the HTTP routes; every ordered pair of 11 spellings of one identity that differ only by letter case or surrounding blanks in domain or principal (each a different identity) runs a 20-step history over HTTP on every route (continuation warm/cold, resume, teardown, both directions); then random histories (which also draw re-spelled identities); every case is non-trivial (it contains presentations); distinct = distinct input JSON",
 		c13Gen, c13Run)
 }
